@@ -6,6 +6,7 @@ import ast
 from ..astq import arg, ext_names, inside, is_name, loc, names_in, stmt_of
 from ..cfg import CFG, any_call_may_raise, reaching_defs
 from ..model import AnalysisError, head, norm
+from . import roles
 from . import c11
 from . import engine as E
 from . import rewriterules as W
@@ -58,6 +59,10 @@ def check(ctx):
                        "execution is reached only through the false arm of the dry_run test" if dom and not via_dry else
                        "execution can be reached without passing the dry_run test on its false arm", norm(x)[:80])
         # user-reaching calls before the test: only the registry application (stale check) and transform_physical
+        from .evalrules import totals_function
+        totals_fn = totals_function(m, "run")
+        from .prunerules import prune_role
+        prune_fn = prune_role(m, rr)
         before = g.reach([g.entry], avoid=tn)
         for c in run.own_calls():
             cn = g.of_stmt_containing(c, run.module)
@@ -68,9 +73,10 @@ def check(ctx):
             fs = m.callee_funcs(run, c)
             names = {f.name for f in fs}
             okc = rr.apply in fs or (isinstance(c.func, ast.Name) and c.func.id in ("transform_physical",)) or \
-                names & {"_coerce_progress", "_update_run_totals", "assert_is_instance", "assert_is_callable", "_coerce_retry", "get_mutable_plan", "prune_plan"} \
-                or (isinstance(c.func, ast.Attribute) and c.func.attr in ("observer", "gather", "_gather", "copy")) \
-                or names & {"get_stack_frame"}
+                names & {"_coerce_progress", "assert_is_instance", "assert_is_callable", "_coerce_retry"} \
+                or (fs and all(roles.is_mutable_plan_func(m, f_) or f_ is prune_fn for f_ in fs)) \
+                or (isinstance(c.func, ast.Attribute) and c.func.attr in ({"observer", "copy"} | roles.gather_names(m))) \
+                or names & {"get_stack_frame"} or totals_fn in fs
             ctx.ob("C14.D1", f"{run.short}/before-test", bool(okc), loc(run, c),
                    "allowed before the dry_run test (validation, observer, stale check, transformations)" if okc else
                    "a user-reaching call other than the stale check / transformations runs before the dry_run test", norm(c)[:100])
